@@ -974,6 +974,91 @@ def _split_joined_adds(fn: ast.FunctionDef) -> int:
     return count
 
 
+def _bulk_none_writes(fn: ast.FunctionDef) -> int:
+    """`nx.set_node_attributes(X.dag, None, name="f")`  ->  `for _bk in X.node_ids(): X.node_data(_bk)["f"] = None`
+    (only the constant None: discarding a cached field on every node; other bulk writes stay calls, which C20-M1 reports)"""
+    count = 0
+    for parent in ast.walk(fn):
+        for fld in ("body", "orelse", "finalbody"):
+            blk = getattr(parent, fld, None)
+            if not isinstance(blk, list):
+                continue
+            for i, st in enumerate(blk):
+                c = st.value if isinstance(st, ast.Expr) else None
+                if not (isinstance(c, ast.Call) and (dotted(c.func) or "").split(".")[-1] == "set_node_attributes"):
+                    continue
+                args = list(c.args)
+                kw = {k.arg: k.value for k in c.keywords}
+                G = args[0] if args else kw.get("G")
+                val = args[1] if len(args) > 1 else kw.get("values")
+                name = args[2] if len(args) > 2 else kw.get("name")
+                if isinstance(G, ast.Attribute) and G.attr == "dag" and isinstance(G.value, ast.Name) \
+                        and isinstance(val, ast.Constant) and val.value is None and isinstance(name, ast.Constant) and isinstance(name.value, str):
+                    count += 1
+                    v = f"_bk{count}"
+                    X = G.value.id
+                    tgt = ast.Subscript(ast.Call(ast.Attribute(ast.Name(X, ast.Load()), "node_data", ast.Load()), [ast.Name(v, ast.Load())], []),
+                                        ast.Constant(name.value), ast.Store())
+                    lp = ast.For(ast.Name(v, ast.Store()), ast.Call(ast.Attribute(ast.Name(X, ast.Load()), "node_ids", ast.Load()), [], []),
+                                 [ast.Assign([tgt], ast.Constant(None))], [])
+                    ast.copy_location(lp, st)
+                    ast.fix_missing_locations(lp)
+                    for y in ast.walk(lp):
+                        if hasattr(y, "lineno"):
+                            y.lineno = y.end_lineno = st.lineno
+                    blk[i] = lp
+    return count
+
+
+def _flag_snapshots(fn: ast.FunctionDef) -> int:
+    """`w = H["f"]; H["f"] = C; if <test over w>: <stores into H only>`  ->  `if <test over H["f"]>: ...; H["f"] = C`.
+
+    The snapshot of a flag taken right before the flag is overwritten, and read only by the test of the next statement, is the
+    flag itself tested before the store. Sound when the `if` neither reads nor writes `H["f"]`, calls nothing, and `w` is not
+    read anywhere else."""
+    count = 0
+
+    def block(body: list) -> None:
+        nonlocal count
+        import copy as _copy
+        i = 0
+        while i + 2 < len(body):
+            a, b, c = body[i], body[i + 1], body[i + 2]
+            ok = isinstance(a, ast.Assign) and len(a.targets) == 1 and isinstance(a.targets[0], ast.Name) \
+                and isinstance(a.value, ast.Subscript) and isinstance(a.value.value, ast.Name) and isinstance(a.value.slice, ast.Constant) \
+                and isinstance(b, ast.Assign) and len(b.targets) == 1 and isinstance(b.targets[0], ast.Subscript) \
+                and ast.unparse(b.targets[0]) == ast.unparse(a.value) and isinstance(b.value, ast.Constant) \
+                and isinstance(c, ast.If) and not c.orelse
+            if ok:
+                w, flag = a.targets[0].id, ast.unparse(a.value)
+                reads = sum(1 for y in ast.walk(fn) if isinstance(y, ast.Name) and y.id == w and isinstance(y.ctx, ast.Load))
+                in_test = sum(1 for y in ast.walk(c.test) if isinstance(y, ast.Name) and y.id == w)
+                stores = sum(1 for y in ast.walk(fn) if isinstance(y, ast.Name) and y.id == w and isinstance(y.ctx, ast.Store))
+                body_ok = all(isinstance(st, ast.Assign) and len(st.targets) == 1 and isinstance(st.targets[0], ast.Subscript)
+                              and isinstance(st.value, ast.Constant) and ast.unparse(st.targets[0]) != flag for st in c.body)
+                test_ok = not any(isinstance(y, (ast.Call, ast.NamedExpr, ast.Await)) for y in ast.walk(c.test))
+                if reads == in_test >= 1 and stores == 1 and body_ok and test_ok:
+                    class _R(ast.NodeTransformer):
+                        def visit_Name(self, n):
+                            return ast.copy_location(_copy.deepcopy(a.value), n) if n.id == w else n
+                    c.test = _R().visit(c.test)
+                    ast.fix_missing_locations(c)
+                    body[i:i + 3] = [c, b]
+                    count += 1
+                    continue
+            i += 1
+        for st in body:
+            if not isinstance(st, (ast.FunctionDef, ast.ClassDef)):
+                for fld in ("body", "orelse", "finalbody"):
+                    sub = getattr(st, fld, None)
+                    if isinstance(sub, list) and sub and isinstance(sub[0], ast.stmt):
+                        block(sub)
+                for h in getattr(st, "handlers", []) or []:
+                    block(h.body)
+    block(fn.body)
+    return count
+
+
 def _merge_complementary_ifs(fn: ast.FunctionDef) -> int:
     """`if c: A else: B` directly followed by `if c: C` / `if not c: C [else: D]` (c a side-effect-free test over names that
     A and B do not re-bind): the second test has the outcome of the first, so C (D) joins the matching arm."""
@@ -1162,6 +1247,8 @@ def _drop_local_annotations(tree: ast.Module) -> None:
     unroll_in(tree.body)
     for x in ast.walk(tree):
         if isinstance(x, ast.FunctionDef):
+            _count("flag_snapshots", _flag_snapshots(x))
+            _count("bulk_none_writes", _bulk_none_writes(x))
             _count("complementary_ifs_merged", _merge_complementary_ifs(x))
             _count("joined_program_texts_split", _split_joined_adds(x))
             _count("while_true_fixpoints", _while_true_flag(x))
